@@ -67,6 +67,36 @@ def boundary_run(ctx):
         ctx.exhaustive.append("zernIndex: the four indices around every row boundary n(n+1)/2 for all rows with j <= %d" % jmax)
 
 
+def narrow_index_run(ctx):
+    """Index arrays are often stored in the narrowest integer type that holds them: every j that fits numpy.uint8 / int8 /
+    int16 / uint16 must map to the same (n, m) as the Python int (exhaustive)."""
+    z, _ = Z()
+    import warnings as _w
+    cnt = 0
+    for tname, top in (("uint8", 255), ("int8", 127), ("int16", 32767), ("uint16", 65535)):
+        T = getattr(np, tname)
+        for j in range(1, top + 1):
+            with _w.catch_warnings():
+                _w.simplefilter("ignore")
+                try:
+                    r = z.zernIndex(T(j))
+                except Exception as e:
+                    raise Failure({"j": j, "type": tname}, Violation("zernIndex(numpy.%s(%d)) raised %s: %s" % (tname, j, type(e).__name__, e)), None)
+            want = noll.noll_single(j)
+            cnt += 1
+            if int(r[0]) != want[0] or int(r[1]) != want[1]:
+                raise Failure({"j": j, "type": tname}, Violation("zernIndex(numpy.%s(%d)) = %r, Noll's ordering gives [%d, %d]" % (tname, j, [int(r[0]), int(r[1])], want[0], want[1])), None)
+    ctx.bulk(cnt, cnt, sample={"j": 65535, "type": "uint16"}, exhaustive="zernIndex: every j representable in numpy.uint8 / int8 / int16 / uint16, passed in that type")
+
+
+def narrow_index_replay(ctx, case):
+    z, _ = Z()
+    j, T = case["j"], getattr(np, case["type"])
+    want = noll.noll_single(j)
+    r = z.zernIndex(T(j))
+    ctx.require(int(r[0]) == want[0] and int(r[1]) == want[1], "zernIndex(numpy.%s(%d)) = %r, Noll's ordering gives [%d, %d]" % (case["type"], j, [int(r[0]), int(r[1])], want[0], want[1]))
+
+
 def index_replay(ctx, case):
     z, _ = Z()
     j = case["j"]
@@ -303,6 +333,7 @@ LAWS = [
     plain_law("very_high_orders", very_high_cases, very_high_body, shards={"quick": 4, "thorough": 8}),
     given_law("modes_xl", mode_cases(320, 20), mode_body, {"quick": 0, "thorough": 40}, shards={"quick": 1, "thorough": 16}),
     Law("noll_index", index_run, replay=index_replay, shards={"quick": 16, "thorough": 16}),
+    Law("noll_index_narrow_types", narrow_index_run, replay=narrow_index_replay, shards={"quick": 1, "thorough": 1}),
     Law("noll_row_boundaries", boundary_run, replay=index_replay, shards={"quick": 4, "thorough": 16}),
     given_law("modes", mode_cases(), mode_body, {"quick": 250, "thorough": 3750}, shards={"quick": 3, "thorough": 16}),
     plain_law("gram_ladder", gram_cases, gram_body, shards={"quick": 2, "thorough": 2}),
